@@ -722,6 +722,21 @@ func policySets() *core.Family {
 	}
 }
 
+// one construct nested very deep (gen.DeepChains).
+func deepChains(tier string) *core.Family {
+	all := gen.DeepChains(gen.DeepDepths(tier))
+	return &core.Family{
+		Name: "deep-chains",
+		Desc: fmt.Sprintf("%d expressions: each nesting construct (prefix-operator chains in 12 mixtures of - and !, access / index / method chains, nested sets, records, method arguments, left- and right-nested binary operators, if chains) at depths %v", len(all), gen.DeepDepths(tier)),
+		N:    int64(len(all)),
+		Run: func(t *core.T, i int64) {
+			name := all[i].Name
+			checkExpr(t, "deep:"+name[:strings.LastIndex(name, "/")], all[i].E)
+			t.Sample(name)
+		},
+	}
+}
+
 func Check() *core.Check {
 	return &core.Check{
 		ID:        "C09",
@@ -734,9 +749,9 @@ func Check() *core.Check {
 			full := gen.Leaves(gen.V)
 			small := gen.Leaves(gen.W)
 			if tier == "thorough" {
-				return []*core.Family{heads(), policySets(), likeFamily(), foreignFamily(), depth1(full), depth2(small[:10])}
+				return []*core.Family{heads(), policySets(), likeFamily(), foreignFamily(), deepChains(tier), depth1(full), depth2(small[:10])}
 			}
-			return []*core.Family{heads(), policySets(), likeFamily(), foreignFamily(), depth1(full), depth2([]*Expr{L(Bool(true)), L(Long(-1)), Var("principal"), L(Decimal(-1))})}
+			return []*core.Family{heads(), policySets(), likeFamily(), foreignFamily(), deepChains(tier), depth1(full), depth2([]*Expr{L(Bool(true)), L(Long(-1)), Var("principal"), L(Decimal(-1))})}
 		},
 	}
 }
